@@ -113,6 +113,11 @@ def initWorld (fmt : Fmt) (pre : FileSt) (next0 : Nat) : World :=
 def runBatch (fmt : Fmt) (pre : FileSt) (next0 : Nat) (ids : List Nat) (n : Nat) : World :=
   runToEnd (fuelFor ids.length n) (startProc (initWorld fmt pre next0) ids n saveFrequency)
 
+/-- the first value of `i_trial` of a freshly started process (`none`: no iteration) -/
+def firstTrialOf : Pc → Option Nat
+  | .trial i => some i
+  | _ => none
+
 structure Result where
   /-- `batch_sim.label`, `batch_sim.method` -/
   label : String
@@ -141,7 +146,7 @@ def runFile (spec : Spec.Spec) (fmt : Fmt) (pre : FileSt) (next0 n : Nat) : Exce
       | .failed e => .error (.run e)
       | _ =>
         .ok ⟨b.label, b.method, b.sims, ids,
-             (match w0.proc.pc with | .trial i => some i | _ => none), w⟩
+             firstTrialOf w0.proc.pc, w⟩
 
 /-- content of `log_file` after the task: `some (a, b)` = the text `a/b`; `none` = not written -/
 def Result.log (r : Result) : Option (Nat × Nat) :=
